@@ -29,6 +29,9 @@ type Route struct {
 	Remove []string `json:"remove,omitempty"`
 	// RemoveAt: the removal happens just before request number RemoveAt (0: before the first one)
 	RemoveAt int `json:"remove_at,omitempty"`
+	// Panics: the route's handler panics; the router then has WithStatusRecovery(500), which answers through the
+	// same header map the CORS headers were written to
+	Panics bool `json:"panics,omitempty"`
 }
 
 // Sibling is a second, stand-alone router of the same process. Its option lists are longer slices of the
@@ -137,9 +140,13 @@ func Gen(t *rapid.T) Case {
 		rt := Route{Pattern: p, Methods: rapid.SampledFrom(methodSets).Draw(t, "rmethods")}
 		if rapid.IntRange(0, 3).Draw(t, "rremove") == 0 {
 			rt.Remove = rapid.SliceOfNDistinct(rapid.SampledFrom([]string{"GET", "POST", "DELETE", "PUT", "PATCH", "CONNECT"}), 1, 3, rapid.ID[string]).Draw(t, "rremoveMs")
+			rt.Panics = false
 			if rapid.Bool().Draw(t, "rremoveLate") {
 				rt.RemoveAt = rapid.IntRange(1, 7).Draw(t, "rremoveAt") // between two requests (never, if there are fewer)
 			}
+		}
+		if len(rt.Remove) == 0 {
+			rt.Panics = rapid.IntRange(0, 5).Draw(t, "rpanics") == 0
 		}
 		c.Routes = append(c.Routes, rt)
 	}
@@ -320,6 +327,12 @@ func Build(c Case) *World {
 	var r *rig.Router
 	var front http.Handler
 	subjectOpt := corsOpt(c.Cfg)
+	var recov []mux.Option
+	for _, rt := range c.Routes {
+		if rt.Panics {
+			recov = []mux.Option{mux.WithStatusRecovery(500)}
+		}
+	}
 	var sib http.Handler
 	mkSib := func() {}
 	if c.Sibling != nil {
@@ -354,10 +367,11 @@ func Build(c Case) *World {
 		if c.Subject == "gnew-override" {
 			own = append(own, subjectOpt)
 		}
+		own = append(own, recov...)
 		r = &rig.Router{Router: g.New("r", nil, own...), Env: env, NotFound: g.NotFound}
 		front = g
 	default:
-		r = env.NewRouter("r", rig.Opts{Trace: c.Cfg.Trace, Extra: []mux.Option{subjectOpt}})
+		r = env.NewRouter("r", rig.Opts{Trace: c.Cfg.Trace, Extra: append([]mux.Option{subjectOpt}, recov...)})
 		front = r
 	}
 	if c.Sibling != nil && c.Sibling.After {
@@ -366,6 +380,9 @@ func Build(c Case) *World {
 	m := ref.NewTable(c.Cfg.Trace)
 	for _, rt := range c.Routes {
 		h := env.NewH()
+		if rt.Panics {
+			h = env.NewH(rig.Action{Op: "panic", V: "cors"})
+		}
 		r.Handle(rt.Pattern, h, nil, rt.Methods...)
 		m.Handle(rt.Pattern, h.ID, rt.Methods)
 	}
